@@ -3,8 +3,9 @@
 (* spec -> impl (GEN) for C08: TLC enumerates every structural corruption  *)
 (* plan (Untrusted!PlansFor) for the region map of every real base file.   *)
 (* The region maps ("shapes") are written by the harness (`c08 shapes`,    *)
-(* one JSON object per file: f = file index, fmt, n = length, regs = the   *)
-(* regions [k, g, w, e]) and read here from the file named by the          *)
+(* one JSON object per file: f = file index, fmt, n = length, focus = ""   *)
+(* or the only region kind that gets plans, regs = the regions              *)
+(* [k, g, w, e]) and read here from the file named by the          *)
 (* environment variable SHAPES.  One CASE line is printed per plan; the    *)
 (* harness (`c08 gen`) applies each plan to the file it was enumerated     *)
 (* for, runs the safe readers of the format over the result and records    *)
@@ -40,14 +41,16 @@ Reduced(p) ==
   \/ p.op = "flip" /\ p.arg = "hi" /\ p.sel = "last"
   \/ p.op = "trunc" /\ p.sel = "hi" /\ p.d = -1
   \/ p.op = "drop"
+  \/ p.op = "bump" /\ p.arg \in {"len", "p5"}
 
 PlansOfFile(i) ==
   LET S == Files[i].regs IN
   UNION { LET all == PlansFor(S, r, FirstDonor(i, S[r].k)) IN
-          IF KindCount(S, S[r].k) > ManyLimit
+          IF Files[i].focus # "" THEN all           \* never thinned: these regions are what the file is for
+          ELSE IF KindCount(S, S[r].k) > ManyLimit
             THEN (IF r % Stride = 0 THEN {p \in all : Reduced(p)} ELSE {})
             ELSE all
-          : r \in 1..Len(S) }
+          : r \in {q \in 1..Len(S) : Files[i].focus = "" \/ S[q].k = Files[i].focus} }
 
 Init == fi = 0 /\ plan = P("none", "", "", 0, FALSE, 1, 0)
 Next == fi = 0 /\ \E i \in 1..Len(Files) : \E p \in PlansOfFile(i) : fi' = i /\ plan' = p
